@@ -171,12 +171,10 @@ impl Thread {
         thread.insert("callstack".to_owned(), serde_json::Value::Array(cs_array));
         thread.insert("threadIndex".to_owned(), json!(self.thread_index));
 
-        if !self.previous_pointer.is_null() {
+        if let Some(previous_content) = self.previous_pointer.resolve() {
             thread.insert(
                 "previousContentObject".to_owned(),
-                json!(
-                    Object::get_path(self.previous_pointer.resolve().unwrap().as_ref()).to_string()
-                ),
+                json!(Object::get_path(previous_content.as_ref()).to_string()),
             );
         }
 
